@@ -16,13 +16,13 @@ RULE = ('two consumer probes (random signature incl. defaults, kw-only, allow/de
         'representable: clear, parse that text, repeat the calls -> same arguments, same provider runs, same text. '
         'distinct = (signature features, tree features, scopes used, override pattern, history length)')
 TIERS = {
-    'quick': {'workers': 8, 'cases': 450, 'timeout': 600},
+    'quick': {'workers': 8, 'cases': 1350, 'timeout': 600},
     'thorough': {'workers': 16, 'cases': 14000, 'timeout': 3000},
 }
 REQUIRED_BUCKETS = ['section:none-marker', 'section:scoped', 'section:provider', 'section:macro', 'section:constant-omitted', 'param:default-shown',
                     'param:binding-shown', 'param:caller-supplied-omitted', 'param:caller-supplied-once-gin-once', 'param:denylisted-default-omitted',
                     'param:nonrepresentable-omitted', 'param:nonrepresentable-default-omitted', 'replay:done', 'history:rebind', 'history:5+calls',
-                    'shape:method', 'shape:init', 'shape:fn', 'override:keyword-on-reference', 'never-called-configurable-bound', 'history:failed-call-on-unbound-macro']
+                    'shape:method', 'shape:init', 'shape:fn', 'override:keyword-on-reference', 'never-called-configurable-bound', 'history:failed-call-on-unbound-macro', 'history:rebind-equal-but-different']
 ORACLE_COUNTERS = ['oracle_evals', 'texts_compared', 'replays']
 _S = {}
 HDR = re.compile(r'^# Parameters for (.+):$')
@@ -157,7 +157,7 @@ def iter_cases(ctx, rng, n):
     for _ in range(rng.choice([1, 2, 3, 4, 5, 6, 8])):
       if rng.random() < 0.12 and binds:
         b = rng.choice(binds)
-        history.append(['rebind', b[0], b[1], b[2], gen_tree(rng, 1)])
+        history.append(['rebind', b[0], b[1], b[2], gen_tree(rng, 1), rng.random() < 0.5])
         continue
       ci = rng.randrange(2)
       over = {}
@@ -248,9 +248,16 @@ def run_history(ctx, case, plist, objs, model, phase):
   obs = []
   for h in case['history']:
     if h[0] == 'rebind':
-      _, ci, sc, prm, tree = h
+      _, ci, sc, prm, tree = h[:5]
       p = plist[ci]
       old = (model.bind if model else {}).get((sc, p.selector), {}).get(prm)
+      if phase == 'first' and len(h) > 5 and h[5] and old is not None:
+        # re-bind to a value that is different but compares equal to the old one (==): the record must still show the new one
+        eq = equal_but_different(old)
+        if eq is not None:
+          tree = eq
+          h[4] = tree
+          ctx.bucket('history:rebind-equal-but-different')
       if phase == 'first':
         # statement X: never a non-representable value after a representable one for the same parameter
         if old is not None and tree_repr(old) is not None and tree_repr(tree) is None:
@@ -303,6 +310,26 @@ def run_history(ctx, case, plist, objs, model, phase):
       if any(o == 'kw' and x in (bound_here or {}) and has(bound_here[x], ('ref', 'macro')) for x, o in over.items() if o):
         ctx.bucket('override:keyword-on-reference')
   return obs
+
+
+def equal_but_different(t):
+  if t[0] == 'ref':
+    return ['ref', t[1], ['s2'] if t[2] != ['s2'] else ['s1'], t[3]]   # references compare equal regardless of their scope
+  if t[0] == 'macro':
+    return ['macro', 'mm/m1' if t[1] == 'm0' else 'm0']                # so do all macros
+  if t[0] == 'lit':
+    v = t[1]
+    if v is True:
+      return ['lit', 1]
+    if type(v) is int and v in (0, 1):
+      return ['lit', bool(v)]
+    if type(v) is int:
+      return ['lit', float(v)]
+    if type(v) is float and v == int(v) and abs(v) < 1e15:
+      return ['lit', int(v)]
+    if type(v) is list and v and all(type(x) is int for x in v):
+      return ['lit', [float(x) for x in v]]
+  return None
 
 
 def normalise(v):
